@@ -128,6 +128,15 @@ class Gen:
         classes: list[Cls] = []
         self.h = Hier(classes)
         meth_names = [0, 1, 2, 3]
+        # now and then a deep multiple-inheritance skeleton: two unrelated roots, a child of each, and a class
+        # inheriting from both children (names can then clash between *grandparents* of the last class)
+        deep = r.random() < 0.3
+        if deep:
+            n = r.randint(5, 7)
+            forced = {0: [], 1: [], 2: [0], 3: [1], 4: ([2, 3] if r.random() < 0.5 else [3, 2])}
+            self.stat("deep-mi-skeleton")
+        else:
+            forced = {}
         for c in range(n):
             bases = [r.randrange(c)] if c > 0 and r.random() < 0.65 else []
             if bases and c >= 2 and r.random() < 0.35:
@@ -136,6 +145,8 @@ class Gen:
                 cands = [b for b in range(c) if b != b1 and b not in classes[b1].mro and b1 not in classes[b].mro]
                 if cands:
                     bases = sorted([b1, r.choice(cands)], reverse=r.random() < 0.5)
+            if c in forced:
+                bases = list(forced[c])
             cd = Cls(bases, [], [], [], [])
             rest = c3([classes[b].mro for b in bases], bases)
             if rest is None:
@@ -982,7 +993,7 @@ def all_bodies(p: Prog):
 
 
 PERTURBATIONS = ["drop-guard", "swap-lit", "widen-param", "swap-args", "ret-type", "attr-type", "none-arg", "drop-init",
-                 "narrow-override", "cond-drop-left", "mi-conflict"]
+                 "narrow-override", "cond-drop-left", "mi-conflict", "mi-conflict-deep"]
 
 
 def perturb(p: Prog, rng, prefer: str | None = None):
@@ -1092,9 +1103,9 @@ def perturb(p: Prog, rng, prefer: str | None = None):
             for fd in all_bodies(q):
                 fd.body = map_stmt(fd.body, lambda e: map_expr(e, f), lambda s: s)
             return q, kind
-        if kind == "mi-conflict":
-            # two bases of one class define the same method incompatibly (different arity); a new function calls it
-            # through the second base's static type
+        if kind in ("mi-conflict", "mi-conflict-deep"):
+            # two bases of one class inherit (or define) the same method incompatibly — preferably from ancestors that
+            # are *not* direct bases of the class; new functions call it through each base's static type
             sites = []
             for c, cd in enumerate(q.classes):
                 if len(cd.bases) < 2:
@@ -1105,21 +1116,62 @@ def perturb(p: Prog, rng, prefer: str | None = None):
                 for k1 in side1:
                     for m, fd in q.classes[k1].methods:
                         defined2 = any(m == m2 for k in q.classes[b2].mro for m2, _ in q.classes[k].methods)
-                        if not defined2 and side2 and not any(m == m2 for m2, _ in cd.methods):
-                            sites.append((c, b2, m, fd))
+                        own = any(m == m2 for m2, _ in cd.methods)
+                        if not defined2 and side2 and not own:
+                            deep1 = k1 != b1 and not any(m == m2 for m2, _ in q.classes[b1].methods)
+                            for k2 in side2:
+                                sites.append((deep1 and k2 != b2, c, b1, b2, k2, m, fd))
             if not sites:
                 continue
-            c, b2, m, fd = rng.choice(sites)
-            ret = fd.ret if fd.ret in (NONE, INT, STR, BOOL) else NONE
-            body = {NONE: ("pass",), INT: ("ret", ("intLit", 0)), STR: ("ret", ("strLit", [])), BOOL: ("ret", ("boolLit", True))}[ret]
-            q.classes[b2].methods.append((m, Func(list(fd.params) + [INT], [], ret, body)))
+            if kind == "mi-conflict-deep":
+                sites = [x for x in sites if x[0]]
+                if not sites:
+                    # no inherited method to clash with: give a grandparent on the first side a fresh method
+                    fresh = []
+                    for c, cd in enumerate(q.classes):
+                        if len(cd.bases) < 2:
+                            continue
+                        b1, b2 = cd.bases[0], cd.bases[1]
+                        side1 = q.classes[b1].mro
+                        side2 = [k for k in q.classes[b2].mro if k not in side1]
+                        used = {m2 for k in cd.mro for m2, _ in q.classes[k].methods}
+                        free = [m for m in range(4, 9) if m not in used]
+                        for k1 in side1[1:]:
+                            if k1 in q.classes[b2].mro or not free:
+                                continue
+                            for k2 in side2[1:]:
+                                fresh.append((c, b1, b2, k1, k2, free[0]))
+                    if not fresh:
+                        continue
+                    c, b1, b2, k1, k2, m = rng.choice(fresh)
+                    fd = Func([], [], INT, ("ret", ("intLit", 3)))
+                    q.classes[k1].methods.append((m, fd))
+                    sites = [(True, c, b1, b2, k2, m, fd)]
+            pick = rng.choice(sites)
+            _, c, b1, b2, k2, m, fd = pick
             h = Hier(q.classes)
             g = Gen(rng)
             g.h = h
-            args = [g.closed(t, None, 1) for t in fd.params] + [("intLit", 1)]
-            call = ("callM", ("var", 0), m, args)
-            q.funcs.append(Func([(C(b2),)], [], NONE, ("expr", call) if ret == NONE else ("expr", ("probe", 900001, call))))
-            q.extra_calls = [(len(q.funcs) - 1, [g.closed((C(c),), None, 2)])]
+            first = h.meth(c, m)                       # the definition instances of c really use
+            if rng.random() < 0.5 or first.ret not in (INT, STR, BOOL):
+                # different arity
+                ret = fd.ret if fd.ret in (NONE, INT, STR, BOOL) else NONE
+                params = list(fd.params) + [INT]
+                args = [g.closed(t, None, 1) for t in fd.params] + [("intLit", 1)]
+            else:
+                # same parameters, an unrelated return type
+                ret = STR if first.ret != STR else INT
+                params = list(fd.params)
+                args = [g.closed(t, None, 1) for t in fd.params]
+            body = {NONE: ("pass",), INT: ("ret", ("intLit", 0)), STR: ("ret", ("strLit", [])), BOOL: ("ret", ("boolLit", True))}[ret]
+            q.classes[k2].methods.append((m, Func(params, [], ret, body)))
+            q.extra_calls = []
+            for b, aa in ((b2, args), (b1, [g.closed(t, None, 1) for t in first.params])):
+                sig = h.meth(b, m) if b == b1 else None
+                rt = ret if b == b2 else (sig.ret if sig else NONE)
+                call = ("callM", ("var", 0), m, aa)
+                q.funcs.append(Func([(C(b),)], [], NONE, ("expr", call) if rt == NONE else ("expr", ("probe", 900001 + b, call))))
+                q.extra_calls.append((len(q.funcs) - 1, [g.closed((C(c),), None, 2)]))
             return q, kind
         if kind == "narrow-override":
             # an overriding method takes less than the method it overrides (argument types are contravariant)
